@@ -30,8 +30,8 @@ trap '[ -n "${VERIF_KEEP:-}" ] && echo "kept $OUT" || rm -rf "$OUT"' EXIT
 pkg=props
 mode=norace
 case "$ID" in
-  C06|C19|C28|C29|C34) mode=race ;;
-  C07) mode=plainrace ;;
+  C06|C19|C28|C29) mode=race ;;
+  C07|C34) mode=plainrace ;;
   C01|C02|C04|C05|C16|C25) mode=both ;;
 esac
 tags=verif
